@@ -1123,9 +1123,13 @@ pub fn run(ctx: &mut Ctx) {
                 ctx.tally("H.hash-refused-by-key-policy", 1);
                 continue;
             }
-            for round in 0..rounds {
+            // ECDSA / DSA keys: enough signatures per key that the short (leading zero octet, 1/256) r and s values
+            // occur with near certainty (about 4000 per key and tier)
+            let ec = k.name.contains("Ecdsa");
+            let rounds_k = if ec { rounds.max(ctx.qt(12u64, 24u64)) } else { rounds };
+            for round in 0..rounds_k {
                 for (pi, p) in h_payloads.iter().enumerate() {
-                    if ki < base_keys && HASHES.contains(h) && round > 0 {
+                    if ki < base_keys && HASHES.contains(h) && round > 0 && !ec {
                         continue;
                     }
                     if slow && (pi + hi + round as usize) % 3 != 0 {
